@@ -1050,7 +1050,7 @@ const rule = "random histories on a fresh TypedValue[uint16] (Get/Has/Set/Delete
 
 func main() {
 	if len(os.Args) < 2 {
-		vx.Die("usage: hx-c06 hist|replay|conc ...")
+		vx.Die("usage: hx-c06 hist|replay|conc|win ...")
 	}
 	fs := flag.NewFlagSet(os.Args[1], flag.ExitOnError)
 	n := fs.Int("n", 400, "number of histories")
@@ -1060,6 +1060,9 @@ func main() {
 	stats := fs.String("stats", "stats.json", "")
 	casePath := fs.String("case", "", "replay: JSON case")
 	runs := fs.Int("runs", 30, "conc: number of runs")
+	lists := fs.Int("lists", 6, "win: number of random primary histories (beside the directed ones)")
+	waitMs := fs.Int("wait", 20, "win: bounded wait for the intruder, ms")
+	workers := fs.Int("workers", 4, "win: schedules run at a time")
 	_ = fs.Parse(os.Args[2:])
 	r := vx.NewRng(*seed)
 	st := vx.NewStats(rule)
@@ -1107,6 +1110,17 @@ func main() {
 	case "conc":
 		st.Rule = "free-running goroutines on one TypedValue[uint16] over mapdb (no faults): Compute(+1) only (no lost update: returned values are exactly 1..total, reads monotone) and mixed Compute(+1)/Set/Delete/Get/Has (every value read was written; final cache equals the raw key); every run under a watchdog"
 		conc(r, st, *runs)
+		if err := st.Write(*stats); err != nil {
+			vx.Die("%v", err)
+		}
+		return
+	case "win":
+		st.Rule = winRule
+		if *casePath != "" {
+			winReplay(st, *casePath)
+		} else {
+			win(r, st, *lists, *waitMs, *workers)
+		}
 		if err := st.Write(*stats); err != nil {
 			vx.Die("%v", err)
 		}
